@@ -297,3 +297,97 @@ def c02_r8(ctx):
         ctx.viol('%s|lossy-send|%s' % (fp, p.rsplit('::', 1)[1]), at,
                  '%s hands a message to a channel with `%s`, which gives the message back instead of waiting when the channel is full; '
                  'link hops that use it: %s. Links rely on blocking sends for loss-free back-pressure' % (f.name if f else fp, p, sorted(hops)), None)
+
+
+def _split_tuple(txt):
+    """top-level comma split of a rendered tuple `(a, b, ..)`"""
+    if not (txt.startswith('(') and txt.endswith(')')):
+        return None
+    out, depth, cur = [], 0, ''
+    for ch in txt[1:-1]:
+        if ch in '([<{':
+            depth += 1
+        elif ch in ')]>}':
+            depth -= 1
+        if ch == ',' and depth == 0:
+            out.append(cur.strip())
+            cur = ''
+        else:
+            cur += ch
+    out.append(cur.strip())
+    return out
+
+
+def ordered_partition(ctx):
+    """A batch of stream elements that is cut in two (`split_off`) is still ONE stretch of the link's sequence: whoever forwards the
+    parts must forward the head (what stays in the vector) before the tail (what split_off returns).  Followed through a tuple
+    return into the caller: the call that consumes the head part dominates the call that consumes the tail part.  Zero sites on the
+    pinned tree (positive control in the fixture crate)."""
+    import re
+    facts = ctx.facts
+    n = 0
+    for f in facts.lib_fns():
+        if getattr(f, 'original', None) is not None or '::tests::' in f.path:
+            continue
+        for bi, t in f.calls():
+            p = t['callee'].get('path') or ''
+            if not p.endswith('::split_off') or not t['args'] or t['args'][0][0] == 'k':
+                continue
+            ty = f.locals[t['args'][0][1][0]]['ty']
+            if 'StreamElement<' not in ty and 'NetworkMessage<' not in ty:
+                continue
+            n += 1
+            sym = q.sym(facts, f)
+            base = render(strip(sym.operand(t['args'][0]))).lstrip('&*')
+            # (1) both parts leave through the returned tuple
+            pos = None
+            for blk in f.blocks:
+                for s in blk['s']:
+                    if s['k'] == 'assign' and s['lhs'] == [0]:
+                        parts = _split_tuple(render(strip(sym.rvalue(s['rv']))))
+                        if parts and len(parts) >= 2:
+                            tails = [i for i, x in enumerate(parts) if 'split_off(' in x]
+                            heads = [i for i, x in enumerate(parts) if 'split_off(' not in x and base in x]
+                            if len(tails) == 1 and len(heads) == 1:
+                                pos = (heads[0], tails[0])
+            ctx.inst('partition|%s' % f.path, {'at': t['at'], 'vector': base, 'returned as (head index, tail index)': pos})
+            if pos is None:
+                raise Inconclusive('%s cuts a batch with split_off but the two parts cannot be followed' % f.path)
+            callers = facts.callers_of(f.path)
+            if not callers:
+                ctx.note('%s has no caller' % f.path)
+            for h, cb in callers:
+                hs = q.sym(facts, h)
+                cons = {'head': [], 'tail': []}
+                for b3, t3 in h.calls():
+                    for a in t3['args']:
+                        r = render(strip(hs.operand(a)))
+                        m = re.search(re.escape(f.name) + r'\(.*\)\.(\d+)$', r)
+                        if m:
+                            k = int(m.group(1))
+                            if k == pos[0]:
+                                cons['head'].append((b3, t3))
+                            elif k == pos[1]:
+                                cons['tail'].append((b3, t3))
+                ctx.inst('partition|%s|consumed in %s' % (f.name, h.path), {'head consumers': [t_['at'] for _, t_ in cons['head']], 'tail consumers': [t_['at'] for _, t_ in cons['tail']]})
+                if not cons['head'] or not cons['tail']:
+                    raise Inconclusive('%s: the consumers of the two parts returned by %s cannot be identified' % (h.path, f.name))
+                hb, tb = cons['head'][0][0], cons['tail'][0][0]
+                if h.dominates(tb, hb) and tb != hb:
+                    ctx.viol('%s|tail-first|%s' % (h.path, f.name), cons['tail'][0][1]['at'],
+                             '%s forwards the part returned by split_off (the TAIL of the batch, element %d of the pair returned by %s) before the '
+                             'part that stayed in the vector (the head): the elements of one batch reach the consumer in another order than '
+                             'they were sent' % (h.path.rsplit('::', 1)[-1], pos[1], f.name), None)
+                elif not h.dominates(hb, tb):
+                    raise Inconclusive('%s: the order in which the two parts of a batch are forwarded is not fixed by dominance' % h.path)
+    ctx.inst('partition|sites', {'split_off on element batches': n}, nontrivial=False)
+
+
+@rule('C02', 'R9', 'a batch that is cut in two on a link path is forwarded head first (ordered partition through split_off, a tuple return and its caller)')
+def c02_r9(ctx):
+    ordered_partition(ctx)
+
+
+@rule('C16', 'R5', 'a batch that is cut in two on a link path is forwarded head first (ordered partition through split_off, a tuple return and its caller)')
+def c16_r5(ctx):
+    ordered_partition(ctx)
